@@ -239,6 +239,7 @@ def main():
         replay_dir = os.environ.get("VERIF_REPLAY_DIR", os.path.join(VERIF, "replays"))
         os.makedirs(replay_dir, exist_ok=True)
         seen_classes = set()
+        unreproduced = 0
         for v in new_viols:
             cls = mod.vclass(v)
             if cls in seen_classes or len(replay_paths) >= 3:
@@ -259,7 +260,8 @@ def main():
                     minimised = True
             elif sh.get("outcome") == "not_reproduced":
                 print(f"HARNESS-ERROR violation of run seed {v.get('seed')} did not reproduce in a fresh interpreter")
-                rc = 2
+                unreproduced += 1
+                seen_classes.discard(cls)
                 continue
             path = os.path.join(replay_dir, f"{check}-{master}-{v.get('seed')}.json")
             orch.write_json(path, {"property": check, "verif_seed": master, "run_seed": v.get("seed"), "hashseed": hseed, "class": cls,
@@ -271,12 +273,15 @@ def main():
                 print(v["text"])
             print(f"VIOLATION property={check} replay={path}")
             rc = max(rc, 1)
+        if unreproduced and not replay_paths:
+            rc = max(rc, 2)
         for kid, vs in known_hits.items():
             f = [x for x in known["findings"] if x["id"] == kid][0]
             print(f"KNOWN-FINDING: property={check} {f['what']} (id={kid}, {len(vs)} runs hit it)")
         if harness:
             print(f"HARNESS-ERROR {len(harness)} runs failed inside the harness; first:\n{harness[0].get('trace') or harness[0].get('log_tail')}")
-            rc = max(rc, 2)
+            if not replay_paths:
+                rc = max(rc, 2)      # a reported, replayable violation keeps exit code 1
 
         cov = mod.summarize(results, tier)
         from collections import Counter as _C
